@@ -15,6 +15,7 @@ for SHA-256, HMAC-SHA-256, AES-128/192/256 in NIST mode):
   tree    envelope only (Exact = FALSE: refusals, errors, NeedReseed, buffers - no bytes): EVERY op sequence
           over {Generate, Generate+additional, Reseed} up to length 9 (quick) / 10 (thorough) and over the
           same plus failing calls up to length 6; replayed on SM3, SHA-256, SHA-512 / SM4, AES-128/192/256
+  level2  envelope only: security level 2 (interval 1024) run into the gate, refused, reseeded
   prng    reader wrapper with a scripted entropy source: fault (short / error / empty) at every call index,
           Read sizes across the per-request maximum
 """
@@ -92,8 +93,8 @@ def run(ctx):
                          invariants=("TypeOK", "CounterBound", "LenChecks", "OutLenOK"),
                          properties=("RefusalPure", "GateExact", "ReseedRestores"), constraint="CanReach"))
 
-    def script(kind, group, combo, sname, n, prio=5):
-        mc(kind, group, combo, 1, prio, InstOps=S([]), GenOps=S([]), ReseedOps=S([]), ScriptName='"%s"' % sname, MaxOps=n, Window=99, LeavesOnly="TRUE")
+    def script(kind, group, combo, sname, n, prio=5, **kw):
+        mc(kind, group, combo, 1, prio, InstOps=S([]), GenOps=S([]), ReseedOps=S([]), ScriptName='"%s"' % sname, MaxOps=n, Window=99, LeavesOnly="TRUE", **kw)
 
     std = S([I(32, 16, 0)])
     for combo in SM + NISTP:
@@ -142,6 +143,9 @@ def run(ctx):
                                        ("etree", [G(b), G(b, 5)] + ([big] if big else []), [R(32), bad], 7)):
             mc(kind, "env", combo, 2, 6, exact=False, algs=ENV_ALGS[(mech, gm)], InstOps=std, GenOps=S(gens), ReseedOps=S(res), MaxOps=depth,
                Window=99, LeavesOnly="TRUE")
+    # another configured interval (security level 2 = 1024 calls): run into the gate, refusals, reseed, go on (envelope only)
+    for combo in (SM[0], SM[3], SM[4]):
+        script("level2", "env", combo, "level", 1024 + 5, exact=False, algs=ENV_ALGS[combo[:2]], Interval=1024)
     # reader wrapper: the environment may make any source read of any call misbehave (short / error / empty)
     pbase = dict(Seed=ctx.seed, Interval=8, TimeLimit=6000, LeavesOnly="FALSE", FaultKinds=S([1, 2, 3]), SrcCap=4)
 
@@ -246,7 +250,7 @@ def run(ctx):
         "NIST mode: the API receives entropy_input from the caller, so min_length = security_strength (SP 800-90A 9.1) is not enforceable there; only empty entropy/nonce is 'below minimum' (as the package documents)",
         "HMAC generator: requests above MaxBytesPerRequest()=2048 are served with the bytes SP 800-90A defines (limit 2^19 bits); modelled as the code does (DrbgObj!HmacMaxReq)",
         "which error is returned when both the reseed gate and a length check apply is not compared; error texts are never compared",
-        "time rule: one real-time scenario per mechanism/mode (6.5 s sleep, test level 6 s); level-1/level-2 intervals (2^20/2^10 calls, 600/60 s) are the same code with other constants and are not run",
+        "time rule: one real-time scenario per mechanism/mode (6.5 s sleep, test level 6 s); the level-2 call interval (1024) is run envelope-only; the level-1 interval (2^20 calls) and the 60 s / 600 s time intervals are the same code with other constants and are not run",
         "entropy/nonce/personalisation/additional-input contents are pseudo-random; lengths, op sequences, fault positions are enumerated; lengths near MAX_BYTES (2^27) are not explored",
         "reader wrapper: requested strength <= 32 bytes; a source that returns fewer bytes than asked for, zero bytes, or an error is a failure (single read per request, as SP 800-90A Get_entropy_input)",
     ]
